@@ -247,6 +247,9 @@ func isEmptyMavenElem(s string) bool {
 	if s == "0" {
 		return true
 	}
+	if s != "" && strings.Trim(s, "0") == "" {
+		return true // "00" is zero as well.
+	}
 	return mavenVersionQualifierOrder[s] == mavenEmptyQualifier
 }
 
@@ -312,6 +315,9 @@ func (m *mavenExtension) compare(e extension) int {
 		}
 		if ac < bc {
 			return -1
+		}
+		if ac == versionNumeric && a.sep == b.sep && a.int == b.int {
+			continue // The same number spelled differently, such as "01" and "1".
 		}
 		if ac == versionNumeric {
 			if a.sep != b.sep {
